@@ -312,6 +312,10 @@ def gen(tier, seed):
             if fname == "required":
                 argv = argv + ["--req", "1"]
             cases.append(dict(forest=fname, parser_kw={}, decls=decls, parents=[], argv=argv, mode="known"))
+    # --help next to a malformed subgroup option (the subgroup choice is resolved in a pass of its own)
+    for argv in (["--help", "--model"], ["-h", "--model", "zz"], ["--model", "mb", "--help"]):
+        cases.append(dict(forest="subgroup", parser_kw={}, decls=[["arg", "p", ["--verbose"], dict(action="store_true")], ["dc"]],
+                          parents=[], argv=argv, mode="known"))
     # every parent program alone and next to a dataclass, every group override
     for i in range(len(PARENTS)):
         for cls in ("std", "sp"):
@@ -510,13 +514,14 @@ def _run_one(case):
     obs = dict(pre=None, parents=[], plain=[], forest=[], fields_obs=[], gen=[], installed=None, groups=[],
                oracle=None, ap_first=None, ap_none=None, ap_late=None, sp=None, standins_from="own")
     grec_sp, grec_tw = [], []
-    sp_parents = _mk_parents(case)
+    rp = outcome_of(lambda: _mk_parents(case))
+    sp_parents = rp[1] if rp[0] == "ok" else []
     parent_ids = {id(a) for par in sp_parents for a in par._actions}
     parent_dkeys = [k for par in sp_parents for k in par._defaults]
     for par in sp_parents:
         obs["parents"] += _describe([a for a in par._actions if not isinstance(a, argparse._HelpAction)])
         obs["parents"] += [[k, "default"] for k in par._defaults]
-    rb = outcome_of(lambda: _build_sp(case, sp_parents, grec_sp))
+    rb = outcome_of(lambda: _build_sp(case, sp_parents, grec_sp)) if rp[0] == "ok" else rp
     standins = []
     if rb[0] != "ok":
         obs["pre"] = rb[:2]
@@ -533,14 +538,23 @@ def _run_one(case):
             obs["pre"] = rs[:2]
             obs["standins_from"] = "empty-argv"
             reset_simple_parsing_state()
-            q_parents = _mk_parents(case)
-            parent_ids |= {id(a) for par in q_parents for a in par._actions}
-            q = _build_sp(case, q_parents, None)
-            n_before = len(q._actions)
-            rq = outcome_of(lambda: q._preprocessing(args=[]))
+            box = {}
+
+            def rebuild():
+                q_parents = _mk_parents(case)
+                box["ids"] = {id(a) for par in q_parents for a in par._actions}
+                q2 = _build_sp(case, q_parents, None)
+                box["n"] = len(q2._actions)
+                q2._preprocessing(args=[])
+                return q2
+
+            rq = outcome_of(rebuild)
             if rq[0] != "ok":
                 obs["standins_from"] = "none"
                 q = None
+            else:
+                q, n_before = rq[1], box["n"]
+                parent_ids |= box["ids"]
         if q is not None:
             own_before = [a for a in q._actions[:n_before] if id(a) not in parent_ids and not isinstance(a, argparse._HelpAction)]
             standins = [a for a in q._actions[n_before:] if id(a) not in parent_ids]
@@ -663,6 +677,9 @@ def signature(case, obs, reason):
         return "parents-installed-after-own-positionals"
     if "group-settings" in clauses and _group_falsy(obs) and (not nongroup or _same(m_first, sp, obs)):
         return "group-falsy-override-dropped"
+    if clauses == ["status"] and obs["pre"] == ["exit", 2] and obs["oracle"][:2] == ["exit", 0]:
+        # the subgroup choice is parsed in a pass of its own, before the main parser can see -h/--help
+        return "subgroup-prepass-error-before-help"
     return "+".join(clauses) + ":" + case["forest"]
 
 
